@@ -66,6 +66,8 @@ class Harness:
 def discover():
     out = []
     for path in sorted(glob.glob(os.path.join(HARNESS_DIR, "**", "*.rs"), recursive=True)):
+        if os.path.basename(path).startswith("inject_"):
+            continue
         fmeta, meta = {}, {}
         lines = open(path).read().split("\n")
         pending_proof = False
@@ -141,10 +143,29 @@ class Overlay:
                 dst = os.path.join(hdir, os.path.basename(hf))
                 shutil.copy(hf, dst)
                 add += f'#[cfg(kani)]\n#[path = "{dst}"]\nmod verif_{stem};\n'
-            if target == "slicec/src/ast/mod.rs":
-                add += AST_EMPTY_CTOR
             with open(tpath, "a") as f:
                 f.write(add)
+        # verbatim, cfg(kani)-guarded additions to other files of the scratch copy (harness/**/inject_*.rs)
+        for inj in sorted(glob.glob(os.path.join(HARNESS_DIR, "**", "inject_*.rs"), recursive=True)):
+            txt = open(inj).read()
+            g = re.search(r"//@@\s*groups:\s*(.*)", txt)
+            t = re.search(r"//@@\s*append_to:\s*(\S+)", txt)
+            if g and t and self.group in g.group(1).split():
+                tp = os.path.join(self.path, t.group(1))
+                if not os.path.exists(tp):
+                    raise Inconclusive(f"file {t.group(1)} no longer exists in /repo")
+                with open(tp, "a") as f:
+                    f.write("\n" + txt)
+        # generated companions (//@@ generate: <script> <output name> [args]): derived from the scratch copy of the repository on every run
+        for hf, target in harness_files:
+            for ln in open(hf):
+                m = re.match(r"\s*//@@\s*generate:\s*(\S+)\s+(\S+)\s*(.*)$", ln)
+                if m:
+                    import shlex
+                    cmd = [sys.executable, os.path.join(VERIF, m.group(1)), self.path, os.path.join(hdir, m.group(2))] + shlex.split(m.group(3))
+                    p = subprocess.run(cmd, stdout=subprocess.PIPE, stderr=subprocess.STDOUT, text=True)
+                    if p.returncode != 0:
+                        raise Inconclusive(f"generator {m.group(1)} failed: {p.stdout.strip()[-600:]}")
         # crate-level attributes a harness file asks for (//@@ crate_attr: ...), under cfg(kani) only, at the top of the crate root
         roots = {}
         for hf, target in harness_files:
@@ -172,18 +193,6 @@ class Overlay:
             pass
         if self.lockf:
             self.lockf.close()
-
-
-# Constructor injected (under cfg(kani), into the scratch copy only) next to Ast::create: an Ast without
-# the 16 primitive entries, whose String-keyed hash insertions alone exhaust the symbolic-execution budget.
-AST_EMPTY_CTOR = """
-#[cfg(kani)]
-impl Ast {
-    pub(crate) fn verif_empty() -> Ast {
-        Ast { elements: Vec::new(), lookup_table: std::collections::HashMap::new() }
-    }
-}
-"""
 
 
 class Inconclusive(Exception):
